@@ -87,3 +87,26 @@ Theorem C14_file_clean :
     (exists st, file_outcome orc du stl text = Ok st) \/ file_outcome orc du stl text = Rtamt.
 Proof. exact file_outcome_classes. Qed.
 Print Assumptions C14_file_clean.
+
+(* ---- the AST-building methods of the parser visitor, re-translated from rtamt/syntax/ast/parser/{ltl,stl}/parser_visitor.py on every build
+   (tools/py2coq_parservisitor.py -> ElabGen.v): on every context the grammar can produce, inside the literal fragment of Elab.v, the generated
+   visitor returns the state and the node of the hand model (same node, or the same rejection class) ---- *)
+From RV Require Import PyParse ElabGen ElabGenCorrect.
+Theorem C14_generated_visitor :
+  forall (orc : oracle) (du : kw), is_unit du = true ->
+  forall (e : sexpr) (st : dstate), shape_ok true e = true -> lits_ok e = true ->
+    gen_visit_stl orc du st e = visit_dump orc du st e.
+Proof. exact @gen_visit_stl_refines. Qed.
+Print Assumptions C14_generated_visitor.
+
+Theorem C14_generated_visitor_ltl :
+  forall (orc : oracle) (du : kw),
+  forall (e : sexpr) (st : dstate), shape_ok false e = true -> lits_ok e = true ->
+    gen_visit_ltl orc st e = visit_dump orc du st e.
+Proof. exact @gen_visit_ltl_refines. Qed.
+Print Assumptions C14_generated_visitor_ltl.
+
+(* whatever the model parser derives is such a context *)
+Theorem C14_generated_contexts : forall stl e ts, Derives stl e ts -> shape_ok stl e = true.
+Proof. exact derives_shape_ok. Qed.
+Print Assumptions C14_generated_contexts.
